@@ -86,13 +86,19 @@ def min_delta(delta):
         # lose precision) in the dtype of the input array
         return x.item() if hasattr(x, 'item') else x
 
+    def _diff(top, base):
+        # Equal values are zero apart, also when both are infinite (a region
+        # made of saturated pixels only): inf - inf would be NaN, and NaN is
+        # not >= delta for any delta
+        return 0 if top == base else top - base
+
     def result(structure, index=None, value=None):
         if value is None:
             if structure.parent is not None:
-                return (_py(structure.height) - _py(structure.parent.height)) >= delta
+                return _diff(_py(structure.height), _py(structure.parent.height)) >= delta
 
-            return (_py(structure.vmax) - _py(structure.vmin)) >= delta
-        return (_py(structure.vmax) - _py(value)) >= delta
+            return _diff(_py(structure.vmax), _py(structure.vmin)) >= delta
+        return _diff(_py(structure.vmax), _py(value)) >= delta
     return result
 
 
